@@ -925,6 +925,18 @@ impl QuantizedCauchy {
 #[derive(Debug)]
 struct Binomial;
 
+#[inline(always)]
+fn binomial_distribution(n: i32, p: f64) -> probability::distribution::Binomial {
+    // The `probability` crate checks its arguments only in debug builds. Parameters outside of
+    // their domain lead to an invalid entropy model (or to an endless loop for `p = NaN`).
+    assert!(n >= 0, "Invalid model parameter: `n` must not be negative.");
+    assert!(
+        (0.0..=1.0).contains(&p),
+        "Invalid model parameter: `p` must be between 0.0 and 1.0 (inclusively)."
+    );
+    probability::distribution::Binomial::new(n as usize, p)
+}
+
 #[pymethods]
 impl Binomial {
     #[new]
@@ -934,7 +946,7 @@ impl Binomial {
             (None, None) => {
                 let model = internals::ParameterizableModel::new(move |(n, p): (i32, f64)| {
                     let quantizer = DefaultLeakyQuantizer::new(0..=n);
-                    let distribution = probability::distribution::Binomial::new(n as usize, p);
+                    let distribution = binomial_distribution(n, p);
                     quantizer.quantize(distribution)
                 });
                 Arc::new(model) as Arc<dyn internals::Model>
@@ -942,20 +954,20 @@ impl Binomial {
             (Some(n), None) => {
                 let quantizer = DefaultLeakyQuantizer::new(0..=n);
                 let model = internals::ParameterizableModel::new(move |(p,): (f64,)| {
-                    let distribution = probability::distribution::Binomial::new(n as usize, p);
+                    let distribution = binomial_distribution(n, p);
                     quantizer.quantize(distribution)
                 });
                 Arc::new(model) as Arc<dyn internals::Model>
             }
             (Some(n), Some(p)) => {
-                let distribution = probability::distribution::Binomial::new(n as usize, p);
+                let distribution = binomial_distribution(n, p);
                 let quantizer = DefaultLeakyQuantizer::new(0..=n);
                 Arc::new(quantizer.quantize(distribution)) as Arc<dyn internals::Model>
             }
             (None, Some(p)) => {
                 let model = internals::ParameterizableModel::new(move |(n,): (i32,)| {
                     let quantizer = DefaultLeakyQuantizer::new(0..=n);
-                    let distribution = probability::distribution::Binomial::new(n as usize, p);
+                    let distribution = binomial_distribution(n, p);
                     quantizer.quantize(distribution)
                 });
                 Arc::new(model) as Arc<dyn internals::Model>
